@@ -173,8 +173,11 @@ func (o *openRun) step() *Line {
 		}
 		return n.Timeout(n.Timer.H, n.Timer.V)
 	case 2: // transaction
-		if m := d.MissingTransactions; len(m) > 0 && rng.Intn(100) < 88 {
+		if m := d.MissingTransactions; len(m) > 0 && rng.Intn(100) < 78 {
 			return n.Transaction(Tx(pick(rng, m)))
+		}
+		if len(n.Requested) > 0 && rng.Intn(100) < 70 {
+			return n.Transaction(Tx(pick(rng, n.Requested))) // possibly a late answer to an earlier view's request
 		}
 		return n.Transaction(Tx(fmt.Sprintf("t%d.%d", d.BlockIndex, rng.Intn(4))))
 	case 3: // ledger moves on + Reset
